@@ -351,7 +351,21 @@ func checkSkip(c *pbt.Ctx, cs SkipCase) {
 			c.Failf("fresh-protocol-cursor", "NewBinaryProtocol starts with Read=%d", p.Read-len(cs.Prefix))
 		}
 		c.Step("Skip native=%v", native)
-		err := p.Skip(thrift.Type(cs.V.K), native)
+		// (BinaryProtocol.Skip ignores its useNative argument and always takes the Go path: the two skippers are called directly)
+		var err error
+		if native {
+			err = p.SkipNative(thrift.Type(cs.V.K), thrift.MaxSkipDepth)
+		} else {
+			err = p.SkipGo(thrift.Type(cs.V.K), thrift.MaxSkipDepth)
+		}
+		if err == nil && !native {
+			q := thrift.NewBinaryProtocol(append([]byte{}, buf...))
+			q.Read = len(cs.Prefix)
+			if e2 := q.Skip(thrift.Type(cs.V.K), true); e2 != nil || q.Read != p.Read {
+				c.Failf("skip-advance:Skip", "Skip(%v) err=%v advanced %d, SkipGo %d", cs.V.K, e2, q.Read-len(cs.Prefix), p.Read-len(cs.Prefix))
+			}
+			thrift.FreeBinaryProtocolBuffer(q)
+		}
 		if err != nil {
 			c.Failf(fmt.Sprintf("skip-error:native=%v", native), "Skip(%v) of well-formed %s: %v", cs.V.K, cs.V.Short(), err)
 		}
